@@ -50,6 +50,8 @@ structure World (V : Type) where
   ext : String → List (OVal V) → M V (OVal V)
   /-- `getattr(C, name)` for a class known by number; `none` = no such attribute -/
   clsAttr : Nat → String → Option (OVal V)
+  /-- `issubclass(C, (names…))` for a class value -/
+  issubclass : OVal V → List String → M V Bool := fun _ _ => throw (.unmodelled "issubclass")
 
 variable {V : Type}
 
@@ -235,6 +237,16 @@ def getattrW (W : World V) (x name : OVal V) : M V (OVal V) :=
     | x => getattr x n
   | _ => throw .typeError
 
+/-- `getattr(x, name, default)` -/
+def getattrD (W : World V) (x name dflt : OVal V) : M V (OVal V) :=
+  match name with
+  | .str n => match x with
+    | .obj _ attrs => pure ((lookupAttr n attrs).getD dflt)
+    | .cls k => pure ((W.clsAttr k n).getD dflt)
+    | .val _ => W.ext "getattr" [x, name, dflt]        -- an abstract value: the world's
+    | _ => pure dflt
+  | _ => throw .typeError
+
 /-! ### numbers -/
 
 def add (a b : OVal V) : M V (OVal V) :=
@@ -252,14 +264,93 @@ def neg (a : OVal V) : M V (OVal V) :=
   | some x => pure (.int (-x))
   | Option.none => throw (.unmodelled "unary - operand")
 
+/-- a `datetime.timedelta` is the instance with its three normalised attributes (`0 ≤ seconds < 86400`,
+`0 ≤ microseconds < 10^6`, `days` of any sign) -/
+def mkDelta (us : Int) : OVal V :=
+  .obj "timedelta" [("days", .int (us / 86400000000)), ("seconds", .int (us % 86400000000 / 1000000)),
+    ("microseconds", .int (us % 1000000))]
+
+/-- total microseconds of a timedelta instance -/
+def deltaUs? : OVal V → Option Int
+  | .obj "timedelta" [("days", .int d), ("seconds", .int s), ("microseconds", .int m)] =>
+    some ((d * 86400 + s) * 1000000 + m)
+  | _ => Option.none
+
+/-- `timedelta(n)`: n days -/
+def timedeltaDays (n : OVal V) : M V (OVal V) :=
+  match intOf? n with
+  | some d => pure (mkDelta (d * 86400000000))
+  | Option.none => throw (.unmodelled "timedelta argument")
+
 def lt (a b : OVal V) : M V Bool :=
   match intOf? a, intOf? b with
   | some x, some y => pure (decide (x < y))
-  | _, _ => match a, b with
+  | _, _ => match deltaUs? a, deltaUs? b with
+   | some x, some y => pure (decide (x < y))
+   | _, _ => match a, b with
     | .val _, _ => throw (.unmodelled "ordering of an abstract value")
     | _, .val _ => throw (.unmodelled "ordering of an abstract value")
     | .str _, .str _ => throw (.unmodelled "string ordering")
     | _, _ => throw .typeError
+
+/-- `a * b`: ints; a timedelta times an int -/
+def mul (a b : OVal V) : M V (OVal V) :=
+  match intOf? a, intOf? b with
+  | some x, some y => pure (.int (x * y))
+  | _, _ => match deltaUs? a, intOf? b with
+    | some us, some k => pure (mkDelta (us * k))
+    | _, _ => throw (.unmodelled "* operands")
+
+/-- `a // b`, `a % b` on ints (floor semantics) -/
+def floordiv (a b : OVal V) : M V (OVal V) :=
+  match intOf? a, intOf? b with
+  | some x, some y => if y = 0 then throw (.unmodelled "ZeroDivisionError") else pure (.int (x.fdiv y))
+  | _, _ => throw (.unmodelled "// operands")
+
+def mod (a b : OVal V) : M V (OVal V) :=
+  match intOf? a, intOf? b with
+  | some x, some y => if y = 0 then throw (.unmodelled "ZeroDivisionError") else pure (.int (x.fmod y))
+  | _, _ => throw (.unmodelled "% operands")
+
+/-! ### `str.format` on the fragment used: `{}` (a str, or an int in decimal) and `{:0Wd}` (zero-padded int, one-digit width) -/
+
+def natDigits (n : Nat) : List Char := Nat.toDigits 10 n
+
+def intRepr (i : Int) : List Char := if i < 0 then '-' :: natDigits i.natAbs else natDigits i.toNat
+
+def padDigits (w n : Nat) : List Char := List.replicate (w - (natDigits n).length) '0' ++ natDigits n
+
+/-- `{:0Wd}`: the width counts the sign -/
+def padInt (w : Nat) (i : Int) : List Char :=
+  if i < 0 then '-' :: padDigits (w - 1) i.natAbs else padDigits w i.toNat
+
+def fmtField (spec : List Char) (x : OVal V) : M V (List Char) :=
+  match spec, x with
+  | [], .str s => pure s.toList
+  | [], .int i => pure (intRepr i)
+  | [':', '0', w, 'd'], .int i => pure (padInt (w.toNat - '0'.toNat) i)
+  | _, _ => throw (.unmodelled "format field")
+
+/-- the scanner: outside a field (`none`) or inside one with the spec read so far, reversed -/
+def fmtGo : Option (List Char) → List Char → List (OVal V) → M V (List Char)
+  | Option.none, [], _ => pure []
+  | some _, [], _ => throw .valueError
+  | Option.none, c :: r, args =>
+    if c = '{' then fmtGo (some []) r args
+    else if c = '}' then throw (.unmodelled "brace escape")
+    else do pure (c :: (← fmtGo Option.none r args))
+  | some sp, c :: r, args =>
+    if c = '}' then
+      match args with
+      | [] => throw .indexError
+      | a :: as => do pure ((← fmtField sp.reverse a) ++ (← fmtGo Option.none r as))
+    else fmtGo (some (c :: sp)) r args
+
+/-- `fmt.format(*args)` -/
+def strFormat (fmt : OVal V) (args : List (OVal V)) : M V (OVal V) :=
+  match fmt with
+  | .str s => do pure (.str (String.ofList (← fmtGo Option.none s.toList args)))
+  | _ => throw (.unmodelled ".format on a non-str")
 
 def le (a b : OVal V) : M V Bool :=
   match intOf? a, intOf? b with
@@ -288,6 +379,13 @@ def iter : OVal V → M V (List (OVal V))
   | .str s => pure (s.toList.map fun c => .str (String.singleton c))
   | .val _ => throw (.unmodelled "iteration over an abstract value")
   | _ => throw .typeError
+
+def enumFrom (i : Nat) : List (OVal V) → List (OVal V)
+  | [] => []
+  | x :: xs => .seq .tuple [.int i, x] :: enumFrom (i + 1) xs
+
+/-- `enumerate(x)`: the pairs `(index, item)` -/
+def enumerate (x : OVal V) : M V (List (OVal V)) := do pure (enumFrom 0 (← iter x))
 
 /-- `list(x)` -/
 def toList (x : OVal V) : M V (OVal V) := do pure (.seq .list (← iter x))
@@ -355,6 +453,28 @@ def dictSet (d k v : OVal V) : M V (OVal V) :=
   | .dict kvs => do pure (.dict (← setKey k v kvs))
   | _ => throw (.unmodelled "item assignment on a non-dict")
 
+/-- `dict(d)`: a copy -/
+def dictCopy (d : OVal V) : M V (OVal V) :=
+  match d with
+  | .dict kvs => pure (.dict kvs)
+  | _ => throw (.unmodelled "dict() of a non-dict")
+
+def updKeys : List (OVal V × OVal V) → List (OVal V × OVal V) → M V (List (OVal V × OVal V))
+  | acc, [] => pure acc
+  | acc, (k, v) :: rest => do updKeys (← setKey k v acc) rest
+
+/-- `d.update(other)`: the new dict (keys of `d` keep their place, new keys are appended in `other`'s order) -/
+def dictUpdate (d other : OVal V) : M V (OVal V) :=
+  match d, other with
+  | .dict kvs, .dict more => do pure (.dict (← updKeys kvs more))
+  | _, _ => throw (.unmodelled ".update on a non-dict")
+
+/-- `d.items()`: the pairs, as tuples -/
+def dictItems (d : OVal V) : M V (OVal V) :=
+  match d with
+  | .dict kvs => pure (.seq .list (kvs.map fun p => .seq .tuple [p.1, p.2]))
+  | _ => throw (.unmodelled ".items on a non-dict")
+
 /-- `d.clear()`: the new (empty) dict -/
 def dictClear (d : OVal V) : M V (OVal V) :=
   match d with
@@ -398,6 +518,16 @@ def Exc.isA (e : Exc V) (classes : List String) : Bool :=
   | .raised (.obj c _) => classes.contains c || classes.contains "Exception"
   | .raised _ => false
   | .unmodelled _ => false
+
+/-- the caught exception as an object (`except Exception as e: … origin_exc=e`) -/
+def Exc.toVal : Exc V → OVal V
+  | .raised e => e
+  | .typeError => .obj "TypeError" []
+  | .valueError => .obj "ValueError" []
+  | .attributeError n => .obj "AttributeError" [("name", .str n)]
+  | .keyError => .obj "KeyError" []
+  | .indexError => .obj "IndexError" []
+  | .unmodelled why => .obj "<unmodelled>" [("why", .str why)]
 
 /-- `try: body  except (A, B): handler` -/
 def tryExcept {α : Type} (classes : List String) (body : M V α) (handler : Exc V → M V α) : M V α :=
